@@ -293,6 +293,11 @@ func newStakingDriver(w *World, sc StakingCfg, plan *stkPlan, ctx sdk.Context, s
 		vs = append(vs, tmtypes.NewValidator(wk.ToTmKey(), v.Power))
 	}
 	d.cmt = tmtypes.NewValidatorSet(vs)
+	// the gateway (client-chain bridge) contract the assets / delegation precompiles accept as caller
+	prm, err := w.App.AssetsKeeper.GetParams(d.ctx)
+	must(err)
+	prm.ExocoreLzAppAddress = gatewayAddr.String()
+	must(w.App.AssetsKeeper.SetParams(d.ctx, prm))
 	return d
 }
 
@@ -450,10 +455,39 @@ func (d *stakingDriver) call(ctx sdk.Context, e BEvent, args map[string]interfac
 		if s == "v" {
 			st = common.BytesToAddress(d.opAddr[o].Bytes()).Bytes()
 		}
-		p := &delegationtypes.DelegationOrUndelegationParams{ClientChainID: LzID, Action: assetstypes.UndelegateFrom, AssetsAddress: w.AssetAddr["lst"].Bytes(), OperatorAddress: d.opAddr[o], StakerAddress: st, OpAmount: x,
-			LzNonce: uint64(id), TxHash: common.BytesToHash(h256(fmt.Sprintf("stk-txh:%d", id)))}
-		key := delegationtypes.GetUndelegationRecordKey(uint64(ctx.BlockHeight()), p.LzNonce, p.TxHash.String(), p.OperatorAddress.String())
+		path := e.str("path")
+		if path == "" {
+			path = "keeper"
+		}
+		args["path"] = path
+		txh := common.BytesToHash(h256(fmt.Sprintf("stk-txh:%d", id)))
+		key := delegationtypes.GetUndelegationRecordKey(uint64(ctx.BlockHeight()), uint64(id), txh.String(), d.opAddr[o].String())
 		d.recID[string(key)] = id
+		if path == "pc" {
+			// the way a client-chain staker's undelegation really arrives: the gateway contract
+			// calls the delegation precompile (which holds its own copy of the delegation keeper)
+			// the EVM needs a coinbase: the block proposer must resolve to an operator. on a live chain
+			// the proposer is a member of the engine's validator set; pick one that resolves
+			hdr := ctx.BlockHeader()
+			for _, v := range app.StakingKeeper.GetAllExocoreValidators(ctx) {
+				if app.StakingKeeper.ValidatorByConsAddr(ctx, sdk.ConsAddress(v.Address)) != nil {
+					hdr.ProposerAddress = v.Address
+					break
+				}
+			}
+			ctx = ctx.WithBlockHeader(hdr)
+			ok, err := RunPrecompile(w, ctx, DelegationPrecompileAddr, gatewayAddr, txh, "undelegate", uint32(LzID), uint64(id),
+				leftAligned32(w.AssetAddr["lst"].Bytes()), leftAligned32(st), []byte(d.opAddr[o].String()), x.BigInt())
+			if err != nil {
+				return err
+			}
+			if !ok {
+				return fmt.Errorf("precompile returned false")
+			}
+			return nil
+		}
+		p := &delegationtypes.DelegationOrUndelegationParams{ClientChainID: LzID, Action: assetstypes.UndelegateFrom, AssetsAddress: w.AssetAddr["lst"].Bytes(), OperatorAddress: d.opAddr[o], StakerAddress: st, OpAmount: x,
+			LzNonce: uint64(id), TxHash: txh}
 		return app.DelegationKeeper.UndelegateFrom(ctx, p)
 	case "Jail", "Unjail":
 		k := e.str("k")
